@@ -1,5 +1,8 @@
 // C13 -- support windows form the expected interval algebra over the grid.
 // Oracle: windows as finite sets of grid-point indices [s,e).
+#include <map>
+#include <memory>
+
 #include "common/cases.h"
 
 using namespace vc;
@@ -254,6 +257,35 @@ static void check_moved(const SupC &c, vf::Obs &o) {
   VCHECK(o, src == src2 && src2 == src, "two moved-from supports (from different windows) compare unequal");
 }
 
+// A few supports live for the whole process. Every case compares one of them with supports on freshly built grids
+// that die at the end of the case: equal content in a distinct object, or different content. Whatever a long-lived
+// object remembers about an earlier comparison partner (by address!) must not leak into a later comparison. Together
+// with the zero-quarantine process (freed blocks are recycled at once) this exercises address reuse.
+static void check_longlived(const SupC &c, vf::Obs &o) {
+  static std::map<size_t, std::unique_ptr<Sup>> pool;
+  size_t n = (size_t)std::min<i64>(c.n, 40);
+  if (n < 2) n = 2;
+  auto &slot = pool[n];
+  if (!slot) slot = std::make_unique<Sup>(Grd(pts(n)), 0, n);
+  const Sup &L = *slot;
+  o.nt(true);
+  bool eqc = true;
+  i64 mode = c.gridmode == 0 ? 1 : c.gridmode;  // never the shared instance here
+  if (mode > 5) mode = 5 + (mode % 3);
+  {
+    Grd g2 = other_grid(Grd(pts(n)), n, mode, eqc);
+    Sup fresh(g2, 0, std::min(n, g2.size()));
+    bool expect = eqc && fresh.size() == n;
+    VCHECK(o, L.hasSameGrid(fresh) == eqc && fresh.hasSameGrid(L) == eqc, "hasSameGrid between a long-lived support and a fresh grid (relation " << mode << ") is wrong: the answer depends on earlier comparisons");
+    VCHECK(o, (L == fresh) == expect && (fresh == L) == expect && (L != fresh) == !expect, "equality between a long-lived support and a support on a fresh grid (relation " << mode << ") is wrong");
+    VCHECK(o, (L.getGrid() == g2) == eqc && (g2 == L.getGrid()) == eqc, "Grid equality between a long-lived grid and a fresh grid (relation " << mode << ") is wrong");
+    bool threw = false;
+    try { Sup u = L.calcUnion(fresh); (void)u; } catch (const BSplineException &) { threw = true; }
+    VCHECK(o, threw == !eqc, "calcUnion of a long-lived support with a support on a fresh grid " << (threw ? "threw although the grids are equal" : "did not throw although the grids differ"));
+    o.cls(eqc ? "fresh:equal-distinct" : "fresh:different");
+  }  // the fresh grid dies here
+}
+
 static std::vector<W> windows(i64 n) {
   std::vector<W> v{{0, 0}};
   for (i64 s = 0; s < n; s++)
@@ -343,5 +375,7 @@ int main(int argc, char **argv) {
   vf::add_sub<SupC>("random-pairs", 3000, gen, check_pair);
   vf::add_sub<SupC>("random-triples", 3000, gen, check_triple);
   vf::add_sub<SupC>("random-moved", 1000, gen, check_moved);
+  vf::add_sub<SupC>("long-lived-vs-fresh", 4000, rc::gen::exec([] {
+    SupC c; c.n = pick(2, 12); c.gridmode = *rc::gen::weightedElement<i64>({{5, 1}, {3, 2}, {1, 3}, {1, 4}, {2, 5}}); return c; }), check_longlived);
   return vf::main_impl(argc, argv, "C13", true);
 }
